@@ -158,6 +158,25 @@ def scenarios(tier):
                               'origins_differ': len(set(origs)) > 1,
                               'has_body': any(s in 'PC' for s in seq), 'connection_header': conn,
                               '_exps': exps}))
+    # "the number of requests ... does not change this": 1 200 small requests packed into ONE segment
+    # (and into two), each role
+    for role in ('forward', 'web', 'reverse'):
+        if role == 'forward':
+            fa, fo, origins = ['--threadless'], {}, {ADDR['a']: origin('a')}
+        elif role == 'web':
+            fa, fo, origins = ['--threadless', '--enable-web-server'], {'plugins': web_plugins()}, {}
+        else:
+            fa, fo, origins = ['--threadless', '--enable-reverse-proxy'], {'plugins': [rev_plugin()]}, {ADDR['u1']: origin('u1')}
+        n = 1200
+        built = [mkreq(role, 'G', i) for i in range(n)]
+        whole = b''.join(b[0] for b in built)
+        for cls, pieces in (('all_in_one', [whole]), ('two_halves', [whole[:len(whole) // 2 + 7], whole[len(whole) // 2 + 7:]])):
+            out.append(Scenario('%s/Gx%d/%s' % (role, n, cls), fa, flags_opts=fo, mode='local',
+                                clients=[dict(script=[('send', p) for p in pieces] + [('wait_idle',), ('close',)])],
+                                origins=origins, dns=DNS, kinds='', horizon=6000,
+                                features={'role': role, 'sequence': 'Gx%d' % n, 'n_requests': n, 'packing': cls,
+                                          'origins_differ': False, 'has_body': False, 'connection_header': 'none',
+                                          '_exps': [b[1] for b in built], '_bound': 0}))
     return out
 
 
